@@ -29,12 +29,12 @@ OperandOK(h) == IsRaw(h) /\ ProjValid(Proj(h))
 
 Classes == {"add_inf_inf", "add_inf_p", "add_p_inf", "add_p_p", "add_p_negp", "add_generic", "add_inf_altrep",
             "z_not_one", "alias_recv", "alias_all", "mixed_p_p", "mixed_p_negp", "mixed_inf", "dbl_inf", "dbl_order2free",
-            "equal_true_diffrep", "equal_neg", "equal_same_y", "equal_inf_inf", "equal_p_inf", "yodd", "yeven", "enc_inf", "chain_step",
+            "equal_true_diffrep", "equal_neg", "equal_same_y", "equal_inf_inf", "equal_p_inf", "yodd", "yeven", "inf_parity", "enc_inf", "chain_step",
             "split_extreme", "split_neg1", "split_neg2", "split_round_flip", "split_limb_carry", "split_edge",
             "mul_zero", "mul_inf", "mul_alias", "mul_edge_scalar", "mul_altrep", "glv_bound",
             "tbl_huge", "tbl_odd", "tbl_row", "bm_single_byte", "bm_zero_nibble", "bm_edge", "bm_priv",
             "dec_ok_cmp", "dec_ok_unc", "dec_ok_inf", "dec_bad_len", "dec_bad_prefix", "dec_noncanon_x", "dec_noncanon_y",
-            "dec_offcurve", "dec_nonresidue", "dec_hybrid", "dec_recv_uninit", "dec_recv_kept", "coords_ok", "coords_bad",
+            "dec_offcurve", "dec_nonresidue", "dec_hybrid", "dec_recv_uninit", "dec_recv_kept", "dec_fresh", "coords_ok", "coords_bad",
             "rec_ok_low", "rec_ok_high", "rec_overflow", "rec_bad_id", "rec_nonresidue",
             "msm_len0", "msm_len1", "msm_len2", "msm_len3plus", "msm_long", "msm_zero_scalar", "msm_inf_point", "msm_dup",
             "msm_inverse", "msm_alias", "msm_mismatch", "msm_cancel", "dsm"}
@@ -106,6 +106,10 @@ Verdict(ev) ==
          (* the library defines the parity of the identity through its (0,1,0) substitution: odd *)
          << OperandOK(ev.p) /\ (~IsInf(a) => ev.out = FlagOf(FIsOdd(a[2]))),
             IF IsInf(a) THEN {} ELSE IF FIsOdd(a[2]) THEN {"yodd"} ELSE {"yeven"} >>
+    [] ev.ev = "pt.InfParity" ->        \* every representative / derivation of the identity reports the same y-parity
+         << /\ \A i \in 1..Len(ev.reps) : OperandOK(ev.reps[i]) /\ IsInf(AffOf(ev.reps[i]))
+            /\ \A i \in 1..Len(ev.outs) : ev.outs[i] = ev.outs[1],
+            {"inf_parity"} >>
     [] ev.ev = "pt.Enc" ->
          LET a == AffOf(ev.p) IN
          << OperandOK(ev.p) /\ ev.unc = EncUncompressedH(a) /\ ev.cmp = EncCompressedH(a)
@@ -187,6 +191,9 @@ Verdict(ev) ==
                         ELSE IF len = 2 * W + 1 /\ ~(yv \prec P) THEN {"dec_noncanon_y"}
                         ELSE IF len = 2 * W + 1 THEN {"dec_offcurve"}
                         ELSE IF len = W + 1 THEN {"dec_nonresidue"} ELSE {})) >>
+    [] ev.ev = "s1.Fresh" ->            \* decoding the same bytes again after the first result was mutated by the caller
+         LET d == DecodeH(ev["in"]) IN
+         << d[1] = "ok" /\ ev.ok /\ ev.ok3 /\ ev.first = EncUncompressedH(d[2]) /\ ev.second = ev.first /\ ev.viaset = ev.first, {"dec_fresh"} >>
     [] ev.ev = "s1.FromCoords" ->
          LET x == H(ev.x)  y == H(ev.y)  good == (x \prec P) /\ (y \prec P) /\ OnCurveXY(x, y) IN
          << IF good THEN ev.ok /\ ~ev.retnil /\ ev.out = EncUncompressedH(<<x, y>>) ELSE ~ev.ok /\ ev.retnil,
